@@ -58,6 +58,7 @@ K_SIZES = {
 K_ARRAYS = {
     "vk_alloc_from_array_memdesc_n2": H("B", "MemoryArrayWriter::alloc_from_array", "2 symbolic MDMemoryDescriptor after a 2-byte symbolic image"),
     "vk_alloc_from_iter_threadname_n2": H("B", "MemoryArrayWriter::alloc_from_iter", "2 symbolic MDRawThreadName after a 2-byte symbolic image"),
+    "vk_alloc_empty_arrays_are_located_at_the_end": H("C", "MemoryArrayWriter::{alloc_from_iter, alloc_from_array, alloc_array, write_bytes} with zero elements after a 2-byte symbolic image"),
     "vk_string_supp": H("B", "write_string_to_location", "concrete string U+1D11E (surrogate pair) after a 2-byte symbolic image"),
     "vk_string_bmp": H("B", "write_string_to_location", "concrete string U+00E9 U+20AC (2- and 3-byte UTF-8)"),
 }
